@@ -91,6 +91,12 @@ func init() {
 				e1run("counter-bound-n3-d4", "counter", 3, 4, "wrap", o, nil, "bound", 0),
 				e1run("counter-rich-n2-d5", "counter", 2, 5, "rich", o, nil, "", 0),
 				e1runSP("doc-live-n2-d2-tx", "doc", 2, 2, "tx", o, 1, 0, "live"), // failed transactions (rollback + replay) inside the history
+				// writes that repeat the value the key or slot already shows (next to concurrent writes of other values)
+				e1run("doc-same-key1-n2-d5", "doc", 2, 5, "key1 same", o, nil, "", 0),
+				e1run("doc-same-key1-n3-d4", "doc", 3, 4, "key1 same", o, nil, "live", 0),
+				e1run("map-same-n2-d5", "map", 2, 5, "same", o, nil, "", 0),
+				e1run("list-same-n2-d4", "list", 2, 4, "same", o, nil, "live", 0),
+				e1run("docarr-same-n2-d3", "doc", 2, 3, "arr same", o, nil, "live", 0),
 				e1runSP("list-live-n2-d2-tx", "list", 2, 2, "tx", o, 1, 0, "live"),
 			}
 		} else {
@@ -143,7 +149,15 @@ func init() {
 				e1run("counter-bound-n3-d4", "counter", 3, 4, "wrap", o, nil, "bound", 0),
 				e1run("counter-rich-n2-d5", "counter", 2, 5, "rich", o, nil, "", 0),
 				e1runSP("map-skew-n3-d4-tx", "map", 3, 4, "tx", o, 1, 0, "skew"), // a failed transaction (rollback + replay) between conflicting writes
+				e1run("doc-same-key1-n2-d5", "doc", 2, 5, "key1 same", o, nil, "", 0),
+				e1run("map-same-n2-d5", "map", 2, 5, "same", o, nil, "", 0),
+				e1run("list-same-n2-d4", "list", 2, 4, "same", o, nil, "live", 0),
 				e1runSP("list-skew-n3-d3-tx", "list", 3, 3, "tx", o, 1, 0, "skew"),
+				// client ids that differ only in case, or whose byte order differs from their case-folded order: ties between
+				// equal clock values are broken by the ids
+				e1run("map-mixid-n3-d4", "map", 3, 4, "mixid", o, nil, "", 0),
+				e1run("list-mixid-n3-d3", "list", 3, 3, "mixid", o, nil, "live", 0),
+				e1run("doc-mixid-key1-n3-d4", "doc", 3, 4, "key1 mixid", o, nil, "", 0),
 			}
 		} else {
 			p.BudgetS = 3300
